@@ -226,3 +226,50 @@ Definition cost (o : op) (w : watch) : nat :=
   | OExpired, SStarted => match w_duration w with Some _ => 1 | None => 0 end
   | _, _ => 0
   end%nat.
+
+(* ---- vocabulary of the property statements (Properties/C13.v) ---- *)
+
+(* the clock does not go backwards on its first n readings (the readings a history consumed) *)
+Definition monotone_upto (clk : nat -> Z) (n : nat) : Prop :=
+  forall i, (S i < n)%nat -> clk i <= clk (S i).
+Definition monotone_uptob (clk : nat -> Z) (n : nat) : bool :=
+  forallb (fun i => clk i <=? clk (S i)) (seq 0 (n - 1)).
+
+(* lengths are the successive differences of the elapsed values (the first one counts from 0) *)
+Fixpoint diffs_from (prev : Z) (l : list split) : Prop :=
+  match l with
+  | [] => True
+  | x :: r => sp_length x = sp_elapsed x - prev /\ diffs_from (sp_elapsed x) r
+  end.
+
+(* what the code does on any clock: the first length is the elapsed value itself, later ones
+   are clamped differences (_delta_seconds) *)
+Fixpoint clamped_diffs_from (prev : option Z) (l : list split) : Prop :=
+  match l with
+  | [] => True
+  | x :: r => sp_length x = match prev with Some p => delta p (sp_elapsed x) | None => sp_elapsed x end
+              /\ clamped_diffs_from (Some (sp_elapsed x)) r
+  end.
+
+(* all states / a watch in a given state, for the legality table *)
+Definition in_state (s : wstate) (w : watch) : Prop := w_state w = s.
+
+(* a call that (re)starts the watch: start/__enter__ on a watch that is not running, restart always *)
+Definition effective_restart (o : op) (w : watch) : bool :=
+  match o, w_state w with
+  | OStart, SStarted | OEnter, SStarted => false
+  | OStart, _ | OEnter, _ => true
+  | ORestart, _ => true
+  | _, _ => false
+  end.
+
+(* a call that stops a running watch *)
+Definition effective_stop (o : op) (w : watch) : bool :=
+  match o, w_state w with
+  | OStop, SStarted | OExit, SStarted => true
+  | _, _ => false
+  end.
+
+Definition all_ops (m : option Z) (rn : bool) : list op :=
+  [OStart; OStop; OResume; ORestart; OSplit; OElapsed m; OLeftover rn; OExpired;
+   OHasStarted; OHasStopped; OSplits; OEnter; OExit].
